@@ -1,6 +1,6 @@
 """C01: reported reachability probabilities are the max-min values."""
 from fractions import Fraction as Fr
-from common import enc, dec, P1, P2, PR, KINDS, fdec, cz, cstr, clist, cnats, NotRepresentable
+from common import enc, dec, P1, P2, PR, KINDS, fdec, cz, cstr, clist, cnats, cgame, NotRepresentable
 import coqrun
 import solvecommon as sc, oracle_exact as ox, impl
 
@@ -128,6 +128,36 @@ def exact_vs_float(ctx, recs):
         ctx.harness_errors.append("coqc failed on %s: %s" % (e[0], e[2][-600:]))
 
 
+def float_trace_monotone(ctx, recs):
+    """the binary64 model (bit-exact with the implementation) is monotone from below and stays in [0,1] sweep by sweep:
+    observed on the model's own trace, for the games of this run (the theorem is about exact rationals)"""
+    terms, meta = [], []
+    budget = 80 if ctx.quick else 1500
+    seen = set()
+    for r in recs:
+        key = sc.game_key(r.game)
+        if not r.ok or key in seen or len(terms) >= budget:
+            continue
+        it = r.out[4] if r.op == "solve" else r.out[2]
+        if it > 300:
+            continue
+        seen.add(key)
+        try:
+            terms.append("(%s, %d)" % (cgame(r.game), it))
+            meta.append(r)
+        except NotRepresentable:
+            pass
+    body = lambda l: "Definition cases : list (game (T:=PrimFloat.float) * nat) := %s.\nEval vm_compute in (run_monotone_cases cases)." % l
+    hdr = sc.HDR + "From Coq Require PrimFloat.\n"
+    bad, errs = coqrun.eval_case_files("c01m", hdr, coqrun.chunked(terms, 40), body)
+    ctx.notes.append("binary64 trace monotone and within [0,1] sweep by sweep: %d games checked, %d exceptions" % (len(terms), len(bad)))
+    for b in bad:
+        ctx.corr_break("the binary64 run is not monotone from below / leaves [0,1] (the idealisation behind the numeric theorems fails here)",
+                       meta[b].inp())
+    for e in errs:
+        ctx.harness_errors.append("coqc failed on %s: %s" % (e[0], e[2][-600:]))
+
+
 def same_object_modes(ctx, recs):
     """'the reported probabilities are the same whether or not pruning was requested' - also when both modes are
     requested from ONE StochasticGame object, in either order"""
@@ -162,6 +192,7 @@ def run(ctx):
     sc.correspondence(ctx, recs, "cmp_probs", "c01")
     check_values(ctx, recs)
     exact_vs_float(ctx, recs)
+    float_trace_monotone(ctx, recs)
     same_object_modes(ctx, recs)
     known_k1(ctx)
 
